@@ -66,6 +66,10 @@ PROPS = {
                  quick=ev("^ZZ_C05_", "IP partition: 2 rule ipBlocks (symbolic network bits, prefix lengths {0,24,32}), <=1 except on the first; two symbolic addresses",
                           "more blocks/excepts; other prefix lengths", models=40),
                  thorough=ev("^ZZ_C05_", "2 blocks with <=1 except each; prefix lengths {0,1,8,24,31,32} and all 33 for one", "more blocks", models=300)),
+            dict(pkg=CONNLIST, harness="harness/connlist", shared="harness/shared",
+                 quick=ev("^ZZ_C05_", "relation shape and list = per-pair answers: 3 workloads, one NetworkPolicy (reduced menus) / two policies / ANP+BANP, a concrete ipBlock with except, symbolic ports",
+                          "larger worlds; exposure and ingress lines are covered by C06/C10", models=40),
+                 thorough=ev("^ZZ_C05_", "full one-policy menus", "larger worlds", models=300)),
         ],
     ),
     "C19": dict(
@@ -119,6 +123,36 @@ PROPS = {
                           "next to a second workload and a policy with symbolic range and a named port; compared with the Deployment/no-replicas baseline; "
                           "pairs of workloads with colliding names (a, a-1, same name under two kinds)",
                           "more than 3 pods per owner; more workloads", models=40)),
+        ],
+    ),
+    "C10": dict(
+        assumptions=[VALIDITY, "service port numbers and names unique within a Service; Route designation = the tool's documented reading (DESIGN 5/C10)"],
+        groups=[
+            dict(pkg=CONNLIST, harness="harness/connlist", shared="harness/shared",
+                 quick=ev("^ZZ_C10_", "one workload with two container ports (symbolic number, protocol ''/TCP/UDP), a Service (matching / not matching selector) with 1-2 ports "
+                          "(symbolic port, targetPort unset / symbolic number / name), an Ingress (default backend or rule path; backend by symbolic number / existing name / missing name) "
+                          "or a Route (no port / symbolic number / name); no policy / policy with symbolic TCP range / policy blocking the controller; symbolic probe port",
+                          "several Services / Ingresses / alternate backends; more container ports", models=40)),
+        ],
+    ),
+    "C06": dict(
+        assumptions=[VALIDITY, "hypothetical pods range over a label vocabulary (app in {b,q,other,absent}, optional fresh label) in an existing or new namespace (with/without labels), declaring a named port with a symbolic number"],
+        groups=[
+            dict(pkg=CONNLIST, harness="harness/connlist", shared="harness/shared",
+                 quick=ev("^ZZ_C06_", "one protected workload, one policy with one rule (ingress or egress) from 10 peer shapes (label equalities, expressions, entire cluster, ipBlock, two peers, "
+                          "selectors an existing workload satisfies) x 4 port shapes (all, symbolic range, protocol-only, named); base report compared with the run without the flag; protected flags vs oracle; "
+                          "every entry vs every hypothetical pod (32 shapes) by the solver; policy in a namespace without workloads",
+                          "admin policies (exposure is disabled with them by design); more rules/policies", models=40),
+                 thorough=ev("^ZZ_C06_", "1-2 rules", "more policies", models=300)),
+        ],
+    ),
+    "C07": dict(
+        assumptions=[VALIDITY, "as C06; the documented omission (a rule peer of label equalities only that an existing workload in a matching namespace satisfies) is modelled by zzOmittedPeer"],
+        groups=[
+            dict(pkg=CONNLIST, harness="harness/connlist", shared="harness/shared",
+                 quick=ev("^ZZ_C06_C07_", "as C06: for every hypothetical pod and (protocol, symbolic port) allowed by the oracle, some reported entry the pod satisfies covers it, or the documented omission applies",
+                          "as C06", models=40),
+                 thorough=ev("^ZZ_C06_C07_", "1-2 rules", "more policies", models=300)),
         ],
     ),
 }
